@@ -808,6 +808,12 @@ void ScriptVariable::ClearInternal()
         break;
 
     case variableType_e::Array:
+        // the holder is null when it was to be resolved from an archive and never was
+        if (!m_data.arrayValue)
+        {
+            break;
+        }
+
         if (m_data.arrayValue->refCount)
         {
             m_data.arrayValue->refCount--;
@@ -821,6 +827,11 @@ void ScriptVariable::ClearInternal()
         break;
 
     case variableType_e::ConstArray:
+        if (!m_data.constArrayValue)
+        {
+            break;
+        }
+
         if (m_data.constArrayValue->refCount)
         {
             m_data.constArrayValue->refCount--;
@@ -852,8 +863,12 @@ void ScriptVariable::ClearInternal()
         break;
 
     case variableType_e::Pointer:
-        m_data.pointerValue->remove(this);
-        m_data.pointerValue = nullptr;
+        if (m_data.pointerValue)
+        {
+            m_data.pointerValue->remove(this);
+            m_data.pointerValue = nullptr;
+        }
+
         break;
 
     case variableType_e::Vector:
